@@ -48,6 +48,19 @@ def run(ctx):
     if bad:
         ctx.broken.append('correspondence C15 (model run_c15 vs Command.Main stdout/exit status): %d of %d cases disagree' % (len(bad), len(terms)))
         ctx.first_disagreement = {'case_index': bad[0], 'input': json.loads(specs[bad[0]]), 'model_term': terms[bad[0]][:4000]}
+    # several repositories in one run (nested stream): model run_c15n
+    nterms = vf.read_lines(os.path.join(ctx.out, 'cases_nested.txt'))
+    nspecs = vf.read_lines(os.path.join(ctx.out, 'specs_nested.jsonl'))
+    nbad, nerr = vf.coq_cases(ctx, 'C15N', ['Out.Paths', 'Out.Filter', 'Out.C15Obs'], 'c15n_in', 'run_c15n', nterms,
+                              shard=max(20, (len(nterms) + 15) // 16), ordered=True)
+    if nerr:
+        ctx.broken.append('correspondence cases (nested repositories) did not evaluate: ' + nerr[-400:])
+    if nbad:
+        ctx.broken.append('correspondence C15 (model run_c15n vs Command.Main on nested repositories): %d of %d cases disagree' % (len(nbad), len(nterms)))
+        if not getattr(ctx, 'first_disagreement', None):
+            ctx.first_disagreement = {'case_index': nbad[0], 'input': json.loads(nspecs[nbad[0]]), 'model_term': nterms[nbad[0]][:4000]}
+    terms = terms + nterms
+    bad = bad + nbad
     ctx.coverage.update({
         'obligations': nthm, 'discharged': ndis,
         'evaluations': s['evaluations'], 'distinct_nontrivial': s['distinct_nontrivial'],
